@@ -143,8 +143,11 @@ func gen(c *lib.Ctx) {
 		genWrapCtx(c, "c05wrapctx-scion", true)
 		genNTSRetry(c, "c05ntsretry-ip", false)
 		genNTSRetry(c, "c05ntsretry-scion", true)
+		genReframe(c, "c05reframe")
 		genNoStamp(c, "c05nostamp-ip", false)
 		genNoStamp(c, "c05nostamp-scion", true)
+	case "reframe": // development
+		genReframe(c, "c05reframe")
 	case "retry": // development
 		genNTSRetry(c, "c05ntsretry-ip", false)
 		genNTSRetry(c, "c05ntsretry-scion", true)
